@@ -326,6 +326,10 @@ struct Mon<'a> {
     failed: bool,
     violation: Option<Violation>,
     probes: Vec<&'static str>,
+    /// work meter: bytes the write calls allocated / were given (chunk + carry-over)
+    work_alloc: u64,
+    work_input: u64,
+    work_calls: u64,
 }
 
 impl<'a> Mon<'a> {
@@ -384,7 +388,13 @@ impl<'a> Write for Mon<'a> {
             "cut-inside-separator" => self.probes.push("cut-inside-separator"),
             _ => {}
         }
+        let w0 = crate::alloc_meter::work_bytes();
         let res = self.stream.write(buf);
+        self.work_alloc += crate::alloc_meter::work_bytes().wrapping_sub(w0);
+        // the call may have to look at what earlier writes left pending
+        let last_term = self.rend.term_ends.iter().cloned().filter(|&t| t <= before).max().unwrap_or(0);
+        self.work_input += (buf.len() + (before - last_term)) as u64;
+        self.work_calls += 1;
         self.writes.push((buf.len(), res.is_ok()));
         let bad_idx = self.sc.bad.as_ref().map(|b| b.index);
         match res {
@@ -700,6 +710,9 @@ impl Property for C09 {
             failed: false,
             violation: None,
             probes: Vec::new(),
+            work_alloc: 0,
+            work_input: 0,
+            work_calls: 0,
         };
         let mut upstream_fault = false;
         match sc.driver {
@@ -770,6 +783,9 @@ impl Property for C09 {
         for p in &mon.probes {
             ctx.probe(p);
         }
+        ctx.lib_alloc += mon.work_alloc;
+        ctx.lib_input += mon.work_input;
+        ctx.lib_calls += mon.work_calls;
         if let Some(b) = &sc.bad {
             ctx.probe(if b.index == 0 {
                 "bad-entry-first"
@@ -1131,6 +1147,9 @@ impl Property for C09 {
         format!("{}/{}", bad, cut)
     }
 
+    fn work_factor(&self) -> Option<u64> {
+        Some(256)
+    }
     fn rule(&self) -> String {
         "Each run draws 1..6 model entries (all required variables, random optional ones, ASCII and 2/3/4-byte \
          UTF-8 values), optionally damages one entry (5 malformation kinds, first/middle/last position), \
